@@ -316,8 +316,9 @@ class ShareableThreadLock:
                 self._acquired_by[thread_id] -= 1
                 if not self._acquired_by[thread_id]:
                     del self._acquired_by[thread_id]  # NOTE: GC
-                    if not self._acquired_by:
-                        self._condition.notify_all()
+                    # NOTE: A waiting thread may itself hold the lock shared
+                    # (upgrade), so we cannot wait for the counter to be empty.
+                    self._condition.notify_all()
             finally:
                 self._condition.release()
 
